@@ -541,6 +541,8 @@ clock_sleep_ms(struct clock* c, float delay_ms)
 {
     char lb[24];
     snprintf(lb, sizeof lb, "%g", (double)delay_ms);
+    if (pct_n > 0)
+        pct_prio[cur] = pct_low--; /* a polling thread must not starve the others under priority scheduling */
     point(VS_SLEEP, lb);
     uint64_t d = (uint64_t)(delay_ms > 0 ? delay_ms * 1000.0f : 0);
     if (c) {
